@@ -223,13 +223,14 @@ def r6_2(F, R, tier):
     from .pps_c09 import CHA, ENTRY, REGISTRY
     R.rule("R6.2", "potential-panic sites (quick: explicit panics and unwrap family; thorough: + overflow/division/bounds asserts and curated std calls) in the numeric "
                    "modules (common, parse/{integer,dimen,glue}, math.rs, the.rs::write) reachable from VM::run are discharged or findings")
-    kinds = ("K1", "K2") if tier == "quick" else ("K1", "K2", "K3", "K4")
+    kinds = ("K1", "K2", "K3", "K4")
 
     def in_scope(fn):
         nm = strip_generics(fn.name)
         if nm.startswith("<"):
             nm = nm[1:]
-        return nm.startswith(NUMERIC)
+        from .pps_c09 import ARMED_K34_FILES
+        return nm.startswith(NUMERIC) or fn.file in ARMED_K34_FILES
     run_pps(F, R, "R6.2", ENTRY, kinds, CHA, registry_names=REGISTRY, fn_filter=in_scope, floor_fns=60, floor_sites=8,
             what=": TeX reports the documented overflow error instead of crashing")
 
